@@ -14,7 +14,7 @@ Symbolic inputs
                        ints 0..DMAX as they come out of a JSON file (2000, 2003, ...)
     k : int            which newick string (tip order x ordered shape) the tree was parsed from
     b0..b3 : float     branch lengths of the newick tree, reals in [0, BMAX] (heights_from_branch_lengths)
-    e0..e2 : int       dates 0..NAME_DATE_MAX written into the taxon names (setup_dates)
+    e0..e2 : int       index into NAME_VALUES, the date string written into the taxon name (setup_dates)
 Concrete: the parse of the enumerated newick strings (dendropy, parse_tree, setup_indexes, TimeTreeModel
 constructor) happens once at import with the real code, outside the symbolic execution.
 
@@ -34,11 +34,13 @@ MODE = _os.environ.get('C06D_MODE', 'float')
 NUM = float if MODE == 'float' else int
 DMAX = 1000000
 BMAX = 1000
-NAME_DATE_MAX = int(_os.environ.get('C06D_NAMEMAX', '3'))
+# setup_dates: the date strings that may follow the last '_' of a taxon name (symbolic index per taxon)
+NAME_VALUES = ['0', '1.5', '2000'] if _os.environ.get('C06D_TIER', 'quick') == 'quick' else ['0', '0.0', '1.5', '2000', '2000.25']
 KLO = int(_os.environ.get('C06D_KLO', '0'))
 KHI = int(_os.environ.get('C06D_KHI', '1000000'))
 TIER = _os.environ.get('C06D_TIER', 'quick')
 EPS = 1.0e-6  # default of heights_from_branch_lengths
+BL3 = [0.0, 2.5, 1.0e-7]  # fixed newick lengths 2..4 (post-order) of the hfb3 condition: below eps, above eps
 
 
 # ------------------------------------------------------------------ enumerated newick strings
@@ -129,6 +131,7 @@ def build_model(t, n, dates=None, postorder=False, lengths=None):
 
 # ------------------------------------------------------------------ set-up inside the CrossHair subprocess
 MODELS = {}  # (n, use_postorder_indices) -> list of real TimeTreeModel, one per enumerated newick
+LEAVES = {}  # same keys -> per model: [(position of the tip's taxon in Taxa, dendropy leaf node)] in leaf_node_iter order
 TM = None
 
 
@@ -158,6 +161,7 @@ def _activate():
     for n in (3, 4):
         for po in (False, True):
             MODELS[(n, po)] = [build_model(t, n, None, po) for t in TREES[n]]
+            LEAVES[(n, po)] = [[(int(node.taxon.label[1:]), node) for node in m.tree.leaf_node_iter()] for m in MODELS[(n, po)]]
     tm.torch = _TorchProxy(torch)
 
 
@@ -182,7 +186,7 @@ def bdom(*b) -> bool:
 
 def edom(*e) -> bool:
     for x in e:
-        if not (0 <= x <= NAME_DATE_MAX):
+        if not (0 <= x < len(NAME_VALUES)):
             return False
     return True
 
@@ -257,29 +261,19 @@ def p_order(d, h) -> bool:
     return True
 
 
-def p_position(d, rows) -> bool:
-    """(3) rows = (position of the tip's taxon in Taxa, node.index, node.date): the tip of taxon i carries
-    index i and the height the convention gives to taxon i, whatever the tip order in the newick string"""
-    want = oracle(d)
-    if len(rows) != len(d):
-        return False
-    for pos, idx, date in rows:
-        if idx != pos:
-            return False
-        if not (date == want[pos]):
-            return False
-    return True
-
-
-def p_tip_at_own_time(d, res) -> bool:
-    """(3) sampling_times[node.index] is what every consumer of the tree model reads for that tip: it has to
-    be the height of the tip's own taxon (no claim on which index the tip gets); same for node.date"""
+def p_tips(d, res, need_index=True) -> bool:
+    """(3)+(4) res = (sampling_times as produced by update_leaf_heights, rows (taxon position, node.index,
+    node.date) as left by initialize_dates_from_taxa).  For every tip: sampling_times[node.index] - what every
+    consumer of the tree model reads for that tip - equals node.date (the two routines agree) and equals the
+    height the convention gives to the tip's OWN taxon; with need_index also node.index == position in Taxa."""
     heights, rows = res
     want = oracle(d)
-    if len(rows) != len(d):
+    if len(rows) != len(d) or len(heights) != len(d):
         return False
     for pos, idx, date in rows:
-        if not (heights[idx] == want[pos]):
+        if need_index and idx != pos:
+            return False
+        if not (heights[idx] == date):
             return False
         if not (date == want[pos]):
             return False
@@ -287,12 +281,20 @@ def p_tip_at_own_time(d, res) -> bool:
 
 
 def p_agree(res) -> bool:
-    """(4) update_leaf_heights and initialize_dates_from_taxa agree: node.date == leaf_heights[node.index]"""
+    """(4) alone, for the replay classification: node.date == sampling_times[node.index]"""
     heights, rows = res
-    if len(rows) != len(heights):
-        return False
     for pos, idx, date in rows:
         if not (heights[idx] == date):
+            return False
+    return True
+
+
+def p_own(d, res) -> bool:
+    """(3) alone, for the replay classification: sampling_times[node.index] == height of the tip's own taxon"""
+    heights, rows = res
+    want = oracle(d)
+    for pos, idx, date in rows:
+        if not (heights[idx] == want[pos]):
             return False
     return True
 
@@ -397,37 +399,37 @@ def upd(d, k=0, po=False):
 def init(d, k, po=False):
     """real initialize_dates_from_taxa on the real parsed tree number k"""
     m = MODELS[(len(d), po)][k]
+    leaves = LEAVES[(len(d), po)][k]
     _set_dates(m, d)
-    for node in m.tree.leaf_node_iter():
+    for pos, node in leaves:
         node.date = None
     TM.initialize_dates_from_taxa(m.tree, m._taxa)
-    rows = []
-    for node in m.tree.leaf_node_iter():
-        rows.append((int(node.taxon.label[1:]), node.index, node.date))
-    return rows
+    return [(pos, node.index, node.date) for pos, node in leaves]
 
 
 def both(d, k, po=False):
     return (upd(d, k, po), init(d, k, po))
 
 
+NAMES = [[f't{i}_{v}' for v in NAME_VALUES] for i in range(4)]
+
+
+def name_dates(e):
+    return [float(NAME_VALUES[i]) for i in e]
+
+
 def named(e, k):
-    """real setup_dates(tree, heterochronous=True) on tree k whose tips are renamed t<i>_<e_i>"""
+    """real setup_dates(tree, heterochronous=True) on tree k whose tips are renamed t<i>_<NAME_VALUES[e_i]>"""
     m = MODELS[(len(e), False)][k]
-    old = []
-    for node in m.tree.leaf_node_iter():
-        old.append((node.taxon, node.taxon.label))
+    leaves = LEAVES[(len(e), False)][k]
     try:
-        for taxon, label in old:
-            i = int(label[1:])
-            taxon.label = 't' + str(i) + '_' + str(e[i])
+        for pos, node in leaves:
+            node.taxon.label = NAMES[pos][e[pos]]
         oldest = TM.setup_dates(m.tree, True)
-        rows = []
-        for (taxon, label), node in zip(old, m.tree.leaf_node_iter()):
-            rows.append((int(label[1:]), node.date, node.original_date))
+        rows = [(pos, node.date, node.original_date) for pos, node in leaves]
     finally:
-        for taxon, label in old:
-            taxon.label = label
+        for pos, node in leaves:
+            node.taxon.label = 't' + str(pos)
     return (oldest, rows)
 
 
@@ -513,36 +515,36 @@ def order3_twin(d0: NUM, d1: NUM, d2: NUM):
     return upd([d0, d1, d2])
 
 
-def position3(d0: NUM, d1: NUM, d2: NUM, k: int):
+def conv3(d0: NUM, d1: NUM, d2: NUM):
     """
-    (3) tip of taxon i: node.index == i and node.date == height of taxon i, for every enumerated newick order.
-    pre: dom(d0, d1, d2) and kdom(k, 3)
-    post: p_position([d0, d1, d2], __return__)
+    (1)+(2) in one exploration: heights == convention oracle, >= 0 with a zero, order / ties reflected.
+    pre: dom(d0, d1, d2)
+    post: p_equal(__return__, oracle([d0, d1, d2])) and p_nonneg_zero(__return__) and p_order([d0, d1, d2], __return__)
     """
-    return init([d0, d1, d2], k)
+    return upd([d0, d1, d2])
 
 
-def position3_twin(d0: NUM, d1: NUM, d2: NUM, k: int):
+def conv3_twin(d0: NUM, d1: NUM, d2: NUM):
     """
-    pre: dom(d0, d1, d2) and kdom(k, 3)
-    post: not (k > KLO and hetero(col(__return__, 2)))
+    pre: dom(d0, d1, d2)
+    post: not hetero(__return__)
     """
-    return init([d0, d1, d2], k)
+    return upd([d0, d1, d2])
 
 
-def agree3(d0: NUM, d1: NUM, d2: NUM, k: int):
+def tips3(d0: NUM, d1: NUM, d2: NUM, k: int):
     """
-    (3)+(4) sampling_times[node.index] == node.date == height of the tip's own taxon.
-    pre: dom(d0, d1, d2) and kdom(k, 3)
-    post: p_agree(__return__) and p_tip_at_own_time([d0, d1, d2], __return__)
+    (3)+(4) tip of taxon i: node.index == i, node.date == sampling_times[i] == height of taxon i, for every enumerated newick order.
+    pre: kdom(k, 3) and dom(d0, d1, d2)
+    post: p_tips([d0, d1, d2], __return__)
     """
     return both([d0, d1, d2], k)
 
 
-def agree3_twin(d0: NUM, d1: NUM, d2: NUM, k: int):
+def tips3_twin(d0: NUM, d1: NUM, d2: NUM, k: int):
     """
-    pre: dom(d0, d1, d2) and kdom(k, 3)
-    post: not (k > KLO and hetero(__return__[0]))
+    pre: kdom(k, 3) and dom(d0, d1, d2)
+    post: not (k >= KLO and hetero(__return__[0]))
     """
     return both([d0, d1, d2], k)
 
@@ -550,16 +552,16 @@ def agree3_twin(d0: NUM, d1: NUM, d2: NUM, k: int):
 def postorder3(d0: NUM, d1: NUM, d2: NUM, k: int):
     """
     (3)+(4) with the parse option use_postorder_indices=True: the tip still sits at the height of its own taxon.
-    pre: dom(d0, d1, d2) and kdom(k, 3)
-    post: p_agree(__return__) and p_tip_at_own_time([d0, d1, d2], __return__)
+    pre: kdom(k, 3) and dom(d0, d1, d2)
+    post: p_tips([d0, d1, d2], __return__, False)
     """
     return both([d0, d1, d2], k, True)
 
 
 def postorder3_twin(d0: NUM, d1: NUM, d2: NUM, k: int):
     """
-    pre: dom(d0, d1, d2) and kdom(k, 3)
-    post: not (k > KLO and hetero(__return__[0]))
+    pre: kdom(k, 3) and dom(d0, d1, d2)
+    post: not (k >= KLO and hetero(__return__[0]))
     """
     return both([d0, d1, d2], k, True)
 
@@ -567,7 +569,7 @@ def postorder3_twin(d0: NUM, d1: NUM, d2: NUM, k: int):
 def iso3(c: NUM, k: int):
     """
     (5) isochronous calendar dates (all equal, non-zero, e.g. 2000): every height is 0.
-    pre: 0 < c <= DMAX and kdom(k, 3)
+    pre: kdom(k, 3) and 0 < c <= DMAX
     post: p_all_zero(__return__)
     """
     return both([c, c, c], k)
@@ -575,8 +577,8 @@ def iso3(c: NUM, k: int):
 
 def iso3_twin(c: NUM, k: int):
     """
-    pre: 0 < c <= DMAX and kdom(k, 3)
-    post: not (c == 2000 and k > KLO and len(__return__[1]) == 3)
+    pre: kdom(k, 3) and 0 < c <= DMAX
+    post: not (c == 2000 and k >= KLO and len(__return__[1]) == 3)
     """
     return both([c, c, c], k)
 
@@ -600,36 +602,37 @@ def shift3_twin(d0: NUM, d1: NUM, d2: NUM, s: NUM):
 
 def named3(e0: int, e1: int, e2: int, k: int):
     """
-    setup_dates: dates written in the taxon names t<i>_<date>; same convention, oldest = max - min.
-    pre: edom(e0, e1, e2) and kdom(k, 3)
-    post: p_named([float(e0), float(e1), float(e2)], __return__)
+    setup_dates: dates written in the taxon names t<i>_<date> (date = NAME_VALUES[e_i]); same convention, oldest = max - min.
+    pre: kdom(k, 3) and edom(e0, e1, e2)
+    post: p_named(name_dates([e0, e1, e2]), __return__)
     """
     return named([e0, e1, e2], k)
 
 
 def named3_twin(e0: int, e1: int, e2: int, k: int):
     """
-    pre: edom(e0, e1, e2) and kdom(k, 3)
-    post: not (k > KLO and __return__[0] == 2.0 and hetero(col(__return__[1], 1)))
+    pre: kdom(k, 3) and edom(e0, e1, e2)
+    post: not (k >= KLO and __return__[0] > 0 and hetero(col(__return__[1], 1)))
     """
     return named([e0, e1, e2], k)
 
 
-def hfb3(d0: NUM, d1: NUM, d2: NUM, b0: float, b1: float, b2: float, b3: float, k: int):
+def hfb3(d0: NUM, d1: NUM, d2: NUM, b0: float, k: int):
     """
-    heights_from_branch_lengths: parents strictly older than children, tips at their sampling time.
-    pre: dom(d0, d1, d2) and bdom(b0, b1, b2, b3) and kdom(k, 3)
-    post: p_hfb(TREES[3][k], [d0, d1, d2], [b0, b1, b2, b3], __return__)
+    heights_from_branch_lengths (dates + newick lengths -> internal heights): parents strictly older than
+    children, tips at their sampling time; symbolic dates, one symbolic and three fixed newick lengths.
+    pre: kdom(k, 3) and dom(d0, d1, d2) and bdom(b0)
+    post: p_hfb(TREES[3][k], [d0, d1, d2], [b0] + BL3, __return__)
     """
-    return hfb([d0, d1, d2], [b0, b1, b2, b3], k)
+    return hfb([d0, d1, d2], [b0] + BL3, k)
 
 
-def hfb3_twin(d0: NUM, d1: NUM, d2: NUM, b0: float, b1: float, b2: float, b3: float, k: int):
+def hfb3_twin(d0: NUM, d1: NUM, d2: NUM, b0: float, k: int):
     """
-    pre: dom(d0, d1, d2) and bdom(b0, b1, b2, b3) and kdom(k, 3)
-    post: not (k > KLO and __return__[1] > 3 and d0 > d1 > d2 > 0)
+    pre: kdom(k, 3) and dom(d0, d1, d2) and bdom(b0)
+    post: not (__return__[1] > 3 and d0 > d1 > d2 > 0 and b0 > 1)
     """
-    return hfb([d0, d1, d2], [b0, b1, b2, b3], k)
+    return hfb([d0, d1, d2], [b0] + BL3, k)
 
 
 # ================================================================== conditions, 4 taxa
@@ -701,36 +704,36 @@ def order4_twin(d0: NUM, d1: NUM, d2: NUM, d3: NUM):
     return upd([d0, d1, d2, d3])
 
 
-def position4(d0: NUM, d1: NUM, d2: NUM, d3: NUM, k: int):
+def conv4(d0: NUM, d1: NUM, d2: NUM, d3: NUM):
     """
-    (3) tip of taxon i: node.index == i and node.date == height of taxon i, for every enumerated newick order.
-    pre: dom(d0, d1, d2, d3) and kdom(k, 4)
-    post: p_position([d0, d1, d2, d3], __return__)
+    (1)+(2) in one exploration: heights == convention oracle, >= 0 with a zero, order / ties reflected.
+    pre: dom(d0, d1, d2, d3)
+    post: p_equal(__return__, oracle([d0, d1, d2, d3])) and p_nonneg_zero(__return__) and p_order([d0, d1, d2, d3], __return__)
     """
-    return init([d0, d1, d2, d3], k)
+    return upd([d0, d1, d2, d3])
 
 
-def position4_twin(d0: NUM, d1: NUM, d2: NUM, d3: NUM, k: int):
+def conv4_twin(d0: NUM, d1: NUM, d2: NUM, d3: NUM):
     """
-    pre: dom(d0, d1, d2, d3) and kdom(k, 4)
-    post: not (k > KLO and hetero(col(__return__, 2)))
+    pre: dom(d0, d1, d2, d3)
+    post: not hetero(__return__)
     """
-    return init([d0, d1, d2, d3], k)
+    return upd([d0, d1, d2, d3])
 
 
-def agree4(d0: NUM, d1: NUM, d2: NUM, d3: NUM, k: int):
+def tips4(d0: NUM, d1: NUM, d2: NUM, d3: NUM, k: int):
     """
-    (3)+(4) sampling_times[node.index] == node.date == height of the tip's own taxon.
-    pre: dom(d0, d1, d2, d3) and kdom(k, 4)
-    post: p_agree(__return__) and p_tip_at_own_time([d0, d1, d2, d3], __return__)
+    (3)+(4) tip of taxon i: node.index == i, node.date == sampling_times[i] == height of taxon i, for every enumerated newick order.
+    pre: kdom(k, 4) and dom(d0, d1, d2, d3)
+    post: p_tips([d0, d1, d2, d3], __return__)
     """
     return both([d0, d1, d2, d3], k)
 
 
-def agree4_twin(d0: NUM, d1: NUM, d2: NUM, d3: NUM, k: int):
+def tips4_twin(d0: NUM, d1: NUM, d2: NUM, d3: NUM, k: int):
     """
-    pre: dom(d0, d1, d2, d3) and kdom(k, 4)
-    post: not (k > KLO and hetero(__return__[0]))
+    pre: kdom(k, 4) and dom(d0, d1, d2, d3)
+    post: not (k >= KLO and hetero(__return__[0]))
     """
     return both([d0, d1, d2, d3], k)
 
@@ -738,16 +741,16 @@ def agree4_twin(d0: NUM, d1: NUM, d2: NUM, d3: NUM, k: int):
 def postorder4(d0: NUM, d1: NUM, d2: NUM, d3: NUM, k: int):
     """
     (3)+(4) with the parse option use_postorder_indices=True: the tip still sits at the height of its own taxon.
-    pre: dom(d0, d1, d2, d3) and kdom(k, 4)
-    post: p_agree(__return__) and p_tip_at_own_time([d0, d1, d2, d3], __return__)
+    pre: kdom(k, 4) and dom(d0, d1, d2, d3)
+    post: p_tips([d0, d1, d2, d3], __return__, False)
     """
     return both([d0, d1, d2, d3], k, True)
 
 
 def postorder4_twin(d0: NUM, d1: NUM, d2: NUM, d3: NUM, k: int):
     """
-    pre: dom(d0, d1, d2, d3) and kdom(k, 4)
-    post: not (k > KLO and hetero(__return__[0]))
+    pre: kdom(k, 4) and dom(d0, d1, d2, d3)
+    post: not (k >= KLO and hetero(__return__[0]))
     """
     return both([d0, d1, d2, d3], k, True)
 
@@ -755,7 +758,7 @@ def postorder4_twin(d0: NUM, d1: NUM, d2: NUM, d3: NUM, k: int):
 def iso4(c: NUM, k: int):
     """
     (5) isochronous calendar dates (all equal, non-zero, e.g. 2000): every height is 0.
-    pre: 0 < c <= DMAX and kdom(k, 4)
+    pre: kdom(k, 4) and 0 < c <= DMAX
     post: p_all_zero(__return__)
     """
     return both([c, c, c, c], k)
@@ -763,8 +766,8 @@ def iso4(c: NUM, k: int):
 
 def iso4_twin(c: NUM, k: int):
     """
-    pre: 0 < c <= DMAX and kdom(k, 4)
-    post: not (c == 2000 and k > KLO and len(__return__[1]) == 4)
+    pre: kdom(k, 4) and 0 < c <= DMAX
+    post: not (c == 2000 and k >= KLO and len(__return__[1]) == 4)
     """
     return both([c, c, c, c], k)
 
